@@ -163,10 +163,25 @@ def evaluate(case, infos, calls, findings, cr, processed_name, processed_text=""
                     r = dict(kv.split("=") for kv in (b["ret"] or "").split(" ")[1:] if "=" in kv)
                     if r.get("inst") != "ok" or (info["ctx"] == "arc" and r.get("ctx") != "ok"):
                         V.append(("wrong_return:%s:self" % lang, "%s returned a container that is not the slot's result: %s" % (what, b["ret"])))
+                    # EVERY vtable pointer of the returned object is compared with the source object's
+                    missing = [f for f, _ in info["fields"] if f not in r]
                     bad = [f for f, _ in info["fields"] if r.get(f) != "ok"]
-                    if bad:
+                    if missing:
+                        V.append(("mock_crash:%s" % lang, "RET line of %s lacks vtable fields %s" % (what, ",".join(missing))))
+                    elif bad:
                         V.append(("self_return_vtbl_uninit:%s:%s" % (lang, "obj" if info["kind"] == "obj" else "group"),
-                                  "%s returned an object whose vtable pointer(s) %s are not the source object's (uninitialised)" % (what, ",".join(bad))))
+                                  "%s returned an object whose vtable pointer(s) %s (of %d) are not the source object's (uninitialised / null)" % (
+                                      what, ",".join(bad), len(info["fields"]))))
+                    fu = c.get("followup")
+                    if fu is not None and not bad and not missing:
+                        e2 = fu["entry"]
+                        rs = [ev for ev in b["revents"] if ev["ev"] == "slot"]
+                        exp2 = "".join(M.arg_expected(k, p) for p, k in enumerate(e2["m"]["args"]))
+                        if (len(rs) != 1 or int(rs[0]["k"]) != e2["k"] or rs[0].get("cont") != "ok" or rs[0].get("args", "") != exp2
+                                or b["rret"] != M.ret_expected(e2["m"]["ret"], e2["k"])):
+                            V.append(("returned_object_unusable:%s:%s" % (lang, "obj" if info["kind"] == "obj" else "group"),
+                                      "calling %s (%s.%s) on the object returned by %s recorded %r / returned %r" % (
+                                          fu["w"]["name"], e2["trait"], e2["m"]["name"], what, rs, b["rret"])))
                 else:
                     exp = M.ret_expected(m["ret"], e["k"])
                     if b["ret"] != exp:
